@@ -104,6 +104,10 @@ def replay_failure(inst, prep_ll, wd, failure, out_path):
             ok = rc == 3 or rc == -9  # deadlock detected by the baton scheduler / hang
         else:
             ok = rc == 1 and ('VF_CHECK_FAILED: ' + lab[:40]) in errt
+            if not ok and (rc in (23, 24) or 'ERROR: AddressSanitizer' in errt or 'runtime error:' in errt):
+                # the real code, run natively on the solver's input, is stopped by ASan/UBSan before the
+                # harness's own check is reached: the failure is real (reported with the sanitizer's text)
+                ok = True
     elif cls in ('mem', 'ub'):
         ok = rc in (23, 24, -11, -8, -6, 134, 136, 139) or 'ERROR: AddressSanitizer' in errt or \
             'runtime error' in errt or 'LeakSanitizer' in errt
